@@ -443,5 +443,120 @@ example : rel .gt (.uint 18446744073709551615) (.int (-1)) = .bool true := by rf
 example : rel .lt (.str "a".toList) (.int 1) = .err .invalidOp := by rfl
 example : valNe (.list [.err .divZero]) (.list [.int 1]) = .err .divZero := by rfl
 
+/-! ### `==` is symmetric on failure-free values -/
+
+mutual
+def NoErr : Val → Bool
+  | .err _ => false
+  | .list l => NoErrList l
+  | .map m => NoErrMap m
+  | _ => true
+def NoErrList : List Val → Bool
+  | [] => true
+  | x :: xs => NoErr x && NoErrList xs
+def NoErrMap : List (Str × Val) → Bool
+  | [] => true
+  | (_, x) :: xs => NoErr x && NoErrMap xs
+end
+
+theorem F_eq_comm (a b : UInt64) : F.eq a b = F.eq b a := by
+  simp only [F.eq]
+  rw [Bool.and_comm (!F.isNaN a) (!F.isNaN b)]
+  congr 1
+  exact decide_eq_decide.mpr eq_comm
+
+theorem eqScalar_comm (l r : Val) : eqScalar l r = eqScalar r l := by
+  cases l <;> cases r
+  case int.uint i n => by_cases h : (n : Int) ≤ i64Max <;> simp [eqScalar, widen, h, eq_comm]
+  case uint.int n i => by_cases h : (n : Int) ≤ i64Max <;> simp [eqScalar, widen, h, eq_comm]
+  all_goals simp [eqScalar, widen, F_eq_comm, eq_comm]
+
+theorem eqScalar_noErr (l r : Val) : ∃ b, eqScalar l r = .bool b := by
+  unfold eqScalar; split <;> exact ⟨_, rfl⟩
+
+mutual
+theorem eq_symm (a b : Val) (ha : NoErr a = true) (hb : NoErr b = true) : valEq a b = valEq b a := by
+  cases a <;> cases b
+  case list.list a b =>
+    simp only [NoErr] at ha hb
+    by_cases h : a.length = b.length
+    · simp [valEq, h, eqList_symm a b ha hb]
+    · have h' : ¬ b.length = a.length := fun e => h e.symm
+      simp [valEq, h, h']
+  case map.map a b =>
+    simp only [NoErr] at ha hb
+    simp [valEq, eqMap_symm a b ha hb]
+  all_goals first
+    | (simp [NoErr] at ha; done)
+    | (simp [NoErr] at hb; done)
+    | simp [valEq, eqScalar_comm]
+theorem eqList_symm : ∀ a b, NoErrList a = true → NoErrList b = true → eqList a b = eqList b a
+  | x :: xs, y :: ys, ha, hb => by
+    simp only [NoErrList, Bool.and_eq_true] at ha hb
+    simp only [eqList, eq_symm x y ha.1 hb.1, eqList_symm xs ys ha.2 hb.2]
+  | [], _, _, _ => by cases ‹List Val› <;> simp [eqList]
+  | _ :: _, [], _, _ => by simp [eqList]
+theorem eqMap_symm : ∀ a b, NoErrMap a = true → NoErrMap b = true → eqMap a b = eqMap b a
+  | [], [], _, _ => rfl
+  | (k, x) :: xs, (k', y) :: ys, ha, hb => by
+    simp only [NoErrMap, Bool.and_eq_true] at ha hb
+    by_cases h : k = k'
+    · subst h; simp only [eqMap, eq_symm x y ha.1 hb.1, eqMap_symm xs ys ha.2 hb.2]
+    · have h' : ¬ k' = k := fun e => h e.symm
+      simp [eqMap, h, h']
+  | [], _ :: _, _, _ => by simp [eqMap]
+  | _ :: _, [], _, _ => by simp [eqMap]
+end
+
+
+/-- `!=` is symmetric on the same values. -/
+theorem ne_symm (a b : Val) (ha : NoErr a = true) (hb : NoErr b = true) : valNe a b = valNe b a := by
+  have h := eq_symm a b ha hb
+  cases a <;> cases b <;> simp_all [valNe, errProp, NoErr]
+
+/-- The side condition is exactly the failure rule: two different failures meet as the left one. -/
+theorem err_not_symm : valEq (.err .divZero) (.err .value) ≠ valEq (.err .value) (.err .divZero) := by
+  simp [valEq]
+
+/-- Non-vacuity: nested values with NaN, mixed numeric types and maps satisfy the hypotheses. -/
+example : NoErr (.list [.float F.canonNaN, .map [("k".toList, .uint 3)], .int 3]) = true := by rfl
+example : valEq (.list [.int 3, .str "a".toList]) (.list [.uint 3, .str "a".toList]) = .bool true ∧
+          valEq (.list [.uint 3, .str "a".toList]) (.list [.int 3, .str "a".toList]) = .bool true := ⟨by rfl, by rfl⟩
+
+/-! ### min / max return one of their arguments; a single argument is returned as it is -/
+
+theorem foldl_pick_mem (f : Val → Val → Val) (hf : ∀ c v, f c v = c ∨ f c v = v) :
+    ∀ (xs : List Val) (cur : Val), xs.foldl f cur = cur ∨ xs.foldl f cur ∈ xs
+  | [], cur => by simp
+  | v :: vs, cur => by
+    simp only [List.foldl_cons, List.mem_cons]
+    rcases foldl_pick_mem f hf vs (f cur v) with h | h
+    · rcases hf cur v with e | e
+      · left; rw [h, e]
+      · right; left; rw [h, e]
+    · right; right; exact h
+
+theorem minOf_mem (x : Val) (xs : List Val) : minOf (x :: xs) ∈ x :: xs := by
+  simp only [minOf, List.mem_cons]
+  apply foldl_pick_mem
+  intro c v; split <;> simp
+
+theorem maxOf_mem (x : Val) (xs : List Val) : maxOf (x :: xs) ∈ x :: xs := by
+  simp only [maxOf, List.mem_cons]
+  apply foldl_pick_mem
+  intro c v; split <;> simp
+
+theorem minOf_empty : minOf [] = .err .argument ∧ maxOf [] = .err .argument := ⟨rfl, rfl⟩
+
+/-- A later argument replaces the current extreme only when it is strictly smaller: equal arguments keep the first. -/
+theorem minOf_keeps_first (a b : Val) (h : rel .lt b a ≠ .bool true) : minOf [a, b] = a := by
+  simp only [minOf, List.foldl_cons, List.foldl_nil]
+
+theorem maxOf_keeps_first (a b : Val) (h : rel .gt b a ≠ .bool true) : maxOf [a, b] = a := by
+  simp only [maxOf, List.foldl_cons, List.foldl_nil]
+
+example : minOf [.int 1, .uint 1, .float F.one] = .int 1 := by rfl
+example : maxOf [.uint 1, .int 1] = .uint 1 := by rfl
+
 end C04
 end Rscel
